@@ -150,6 +150,11 @@ theorem xkeyString_frame (pr : Prims) (h : Heap) (k : XKeyH) :
     ∀ a, a < h.size → (xkeyString pr h k).heap.arrays[a]? = h.arrays[a]? :=
   (xkeyString_ext (Ext.refl h) pr k).same
 
+/-- bip32/extendedkey.go `ExtendedKey.Address` -/
+theorem xkeyAddress_frame (pr : Prims) (h : Heap) (k : XKeyH) (addrID : UInt8) :
+    ∀ a, a < h.size → (xkeyAddress pr h k addrID).heap.arrays[a]? = h.arrays[a]? :=
+  (xkeyAddress_ext (Ext.refl h) pr k addrID).same
+
 /-- bip32/extendedkey.go `ExtendedKey.Child`: `copy(data[offset:], k.key)` / `copy(data, pubKeyBytes)`
 write into the function's own `data` -/
 theorem childData_frame (h : Heap) (k : XKeyH) (i : Nat) :
@@ -335,8 +340,8 @@ theorem privSerialise_deterministic (h1 h2 : Heap) (d : Nat) :
 
 /-- read-only callees: the result depends on the bytes only -/
 theorem readOnly_deterministic {α : Type} (f : Bytes → α) (h1 h2 : Heap) (s1 s2 : Slice)
-    (hv : h1.read s1 = h2.read s2) : (readOnly f h1 s1).val = (readOnly f h2 s2).val := by
-  simp only [readOnly, hv]
+    (hv : h1.read s1 = h2.read s2) : (readOnly f h1 s1).val = (readOnly f h2 s2).val :=
+  congrArg f hv
 
 /-! ### non-vacuity: every theorem instantiated on a slice WITH spare capacity -/
 
@@ -411,6 +416,8 @@ def exKey : XKeyH :=
     childNum := 0, depth := 0, isPrivate := true }
 example (pr : Prims) : (xkeyString pr padHeap exKey).heap.arrays[0]? = padHeap.arrays[0]? :=
   xkeyString_frame pr padHeap exKey 0 (by decide)
+example (pr : Prims) : (xkeyAddress pr padHeap exKey 111).heap.arrays[0]? = padHeap.arrays[0]? :=
+  xkeyAddress_frame pr padHeap exKey 111 0 (by decide)
 example (i : Nat) : (childData padHeap exKey i).heap.arrays[0]? = padHeap.arrays[0]? :=
   childData_frame padHeap exKey i 0 (by decide)
 example (pr : Prims) (i : Nat) : (childHmac pr padHeap exKey i).heap.arrays[0]? = padHeap.arrays[0]? :=
@@ -515,6 +522,7 @@ end GoBk.Props.C16
 #print axioms GoBk.Props.C16.privSerialise_frame
 #print axioms GoBk.Props.C16.wifString_frame
 #print axioms GoBk.Props.C16.xkeyString_frame
+#print axioms GoBk.Props.C16.xkeyAddress_frame
 #print axioms GoBk.Props.C16.childData_frame
 #print axioms GoBk.Props.C16.childHmac_frame
 #print axioms GoBk.Props.C16.sigSerialise_frame
